@@ -805,7 +805,8 @@ class WMSGroupLayer(WMSLayerBase):
         if self.this:
             # only the sources of the group layer itself are rendered
             return self.this.is_opaque(query)
-        return any(x.is_opaque(query) for x in self.layers)
+        # only sub layers that are rendered for this query can hide something
+        return any(x.is_opaque(query) for x in self.layers if x.renders_query(query))
 
     @property
     def legend_size(self):
@@ -826,7 +827,8 @@ class WMSGroupLayer(WMSLayerBase):
         else:
             layers = []
             for layer in self.layers:
-                layers.extend(layer.map_layers_for_query(query))
+                if layer.renders_query(query):
+                    layers.extend(layer.map_layers_for_query(query))
             return layers
 
     def info_layers_for_query(self, query):
